@@ -34,9 +34,14 @@ func sizeItem() *rapid.Generator[gen.Item] {
 func itemGen() *rapid.Generator[gen.Item] {
 	anyItem := gen.AnyItem(gen.TokWidth, 2)
 	sz := sizeItem()
+	hot := gen.ExpandingString([]string{"\"", "<", "&", "|", "\\", "\n", "\x01", "\u2028", "'", "\U0001f469"})
 	return rapid.Custom(func(t *rapid.T) gen.Item {
 		if rapid.IntRange(0, 4).Draw(t, "size") == 0 {
 			return sz.Draw(t, "sz")
+		}
+		if rapid.IntRange(0, 9).Draw(t, "expanding") == 0 {
+			// every renderer escapes something: quotes, angle brackets, ampersands, pipes, backslashes, control characters
+			return gen.S(hot.Draw(t, "hot"))
 		}
 		it := anyItem.Draw(t, "item")
 		return it
